@@ -10,7 +10,7 @@ sys.path.insert(0, VERIF)
 from mirsym.core import *          # noqa
 from mirsym import core as mcore
 from mirsym.models import std_models, I64, in_i64
-from mirsym import models_extra, hashmap, iters   # noqa: register further models
+from mirsym import models_extra, hashmap, iters, strmodels, more_models   # noqa: register further models
 
 ENV = dict(os.environ, CARGO_NET_OFFLINE='true', CARGO_TERM_COLOR='never')
 NCPU = int(os.environ.get('VERIF_JOBS', '0')) or min(16, os.cpu_count() or 4)
@@ -325,6 +325,7 @@ def load_known():
 
 def fmt_int(n):
     """noulith source text for an integer (negative literals via 0-n to stay independent of unary-minus parsing)"""
+    if n == -(1 << 63): return '((0-9223372036854775807)-1)'       # stays a machine word (0 - 2^63 would go through the big representation)
     return str(n) if n >= 0 else f'(0-{-n})'
 def fmt_big(n):
     """integer forced into the big representation: `^` always returns NInt::Big"""
